@@ -91,6 +91,45 @@ impl TreeGen {
         }
         v
     }
+    /// One pass of `run_constraints` over a store of several disequalities, triggered by ONE multi-binding
+    /// unification: a disequality that is simplified by the bindings may come to subsume (and so remove) a
+    /// stored one in the middle of the pass, while a third one — later in the store's iteration order — is
+    /// violated or discharged by the same bindings.  Nothing follows the unification, so a constraint the pass
+    /// skips is never looked at again.  (Seeded change C09-b: the pass stopped at the first constraint that had
+    /// already left the store.)
+    pub fn store_pass(r: &mut Rng) -> Prog {
+        let nv = 5;
+        let var = |r: &mut Rng| T::Var(r.below(nv));
+        let c = |r: &mut Rng| T::Num(r.range(1, 3) as isize);
+        let (p, pc) = (var(r), c(r)); // the pair shared by D1 and D2
+        let (a, ac) = (var(r), c(r));
+        let (z, zc) = (var(r), c(r));
+        let (x, w) = (var(r), if r.chance(3, 4) { var(r) } else { c(r) });
+        let two = |r: &mut Rng, l: (T, T), m: (T, T)| -> PG {
+            if r.chance(1, 2) { PG::Neq(T::list(vec![l.0, m.0]), T::list(vec![l.1, m.1])) } else { PG::Neq(T::list(vec![m.0, l.0]), T::list(vec![m.1, l.1])) }
+        };
+        let mut ds = vec![
+            two(r, (a.clone(), ac.clone()), (p.clone(), pc.clone())),
+            two(r, (p.clone(), pc.clone()), (z, zc)),
+            PG::Neq(x.clone(), w.clone()),
+        ];
+        for _ in 0..r.below(2) {
+            ds.push(PG::Neq(var(r), if r.chance(1, 2) { var(r) } else { c(r) }));
+        }
+        // shuffle the disequalities
+        for i in (1..ds.len()).rev() {
+            let j = r.below(i + 1);
+            ds.swap(i, j);
+        }
+        // the unification: binds `a` to its constant (D1 becomes `p != pc`) — or to another one (D1 is discharged) —
+        // and `x` to `w` (D3 violated) — or to something else
+        let a_to = if r.chance(3, 4) { ac } else { c(r) };
+        let x_to = if r.chance(2, 3) { w } else { c(r) };
+        let (l, rr) = if r.chance(1, 2) { (vec![x, a], vec![x_to, a_to]) } else { (vec![a, x], vec![a_to, x_to]) };
+        let mut body = ds;
+        body.push(PG::Eq(T::list(l), T::list(rr)));
+        Prog { nvars: nv, nq: nv, take: 0, body, raw: false }
+    }
     pub fn prog(&self, r: &mut Rng) -> Prog {
         let n = 1 + r.below(self.max_atoms);
         Prog { nvars: self.nv(), nq: self.nq, take: 0, body: self.conj(r, n, 2), raw: false }
